@@ -210,6 +210,14 @@ def step (st : St) (op : String) (got : String) : StepResult St :=
           if sl.toNat?.getD 0 > maxFragments * frames || by_.toNat?.getD 0 > fbytes then
             [⟨"store-bounded", "link", s!"partial message store out of proportion after {frames} frames / {fbytes} bytes: {gStore}"⟩] else []
         | _ => []
+      -- packets already queued to the forwarding threads stay untouched by later frames (the harness
+      -- keeps them uncopied and renders them again after every frame, which arrives in a reused buffer)
+      let spQ : List SpecFail :=
+        if !bad && (kv got "qs").startsWith "0" then
+          [⟨"reject-no-state-change", (if kv got "dec" == "0" then "queued-packet" else "queued-packet-later-frame"),
+            s!"after this frame (dec={kv got "dec"}) a packet queued EARLIER to a forwarding thread (no. {(kv got "qs").drop 2}) no longer has the name / bytes / token it was queued with"⟩]
+        else []
+      let spRej := spRej ++ spQ
       let st1 := { st with frames := frames, frameBytes := fbytes,
                            prevStore := if bad then st.prevStore else gStore, prevCnt := if bad then st.prevCnt else gCnt }
       if !st.synced then { st := st1, expected := none, spec := sp ++ spRej ++ spBound }
@@ -243,7 +251,7 @@ def step (st : St) (op : String) (got : String) : StepResult St :=
                   [⟨"dispatch-total", "hash", s!"token-less Data must go to between 1 and {st.cfgThreads} distinct existing threads: {kv got "d"}"⟩]
                 else []
               | _ => []
-            let expected := s!"dec={decS} i={i} d={d} store={storeStats l'.store} cnt={l'.nInInterests}/{l'.nInData}"
+            let expected := s!"dec={decS} i={i} d={d} store={storeStats l'.store} cnt={l'.nInInterests}/{l'.nInData} qs=1"
             let tags := [tag] ++ (if l'.store.length != st.link.store.length then ["link-store-change"] else [])
             { st := { st1 with link := l' }, expected := some expected, spec := sp ++ spRej ++ spBound ++ spHash, cov := tags,
               nontrivial := l'.store.length != st.link.store.length || dl != .nothing }
